@@ -31,10 +31,12 @@ Theorem C02_semicolon_split : forall ps,
 Proof. exact semicolon_split. Qed.
 Print Assumptions C02_semicolon_split.
 
-(* Every layout of a file — any cuts (inside tokens and literals), indentation, blanks after '&',
-   trailing comments, blank and comment lines between continued lines and between statements —
-   yields exactly the ';'-separated, trimmed parts of the logical lines' character streams:
-   literal text verbatim, a continued literal re-joined exactly. *)
+(* Every layout of a file — cuts with '&'...'&' continuation anywhere (inside tokens and literals)
+   or with a bare trailing '&' between tokens, any indentation, blanks after '&', trailing
+   comments, blank and comment lines between continued lines and between statements — yields
+   exactly the ';'-separated, trimmed parts of the logical lines' character streams [joined]:
+   literal text verbatim, a continued literal re-joined exactly; with '&'-led continuation the
+   stream is the plain concatenation of the segments, so the cuts are invisible. *)
 Theorem C02_file_statements : forall f,
   Forall item_ok f ->
   read_all default_cfg (render_file f) = ROk (flat_map stmts_of (file_texts f)).
@@ -46,6 +48,11 @@ Theorem C02_layout_invariance : forall f1 f2,
   read_all default_cfg (render_file f1) = read_all default_cfg (render_file f2).
 Proof. exact layout_invariance. Qed.
 Print Assumptions C02_layout_invariance.
+
+Theorem C02_joined_all_amp : forall sg segs,
+  Forall (fun x => sg_amp x = true) segs -> joined (sg :: segs) = " "%char :: ll_text (sg :: segs).
+Proof. exact joined_all_amp. Qed.
+Print Assumptions C02_joined_all_amp.
 
 (* The full statement (commentary wherever Fortran allows it) is FALSE of the code as it is:
    it holds outside two decidable regions and is refuted inside each. *)
